@@ -79,6 +79,16 @@ func checkC20(c *Ctx) {
 	c.Rule("C20-R16", "the surplus is distributed among children in proportion to their fill factors, so none of it goes to a child that does not expand: the extents handed to the children's view ports are computed, never the negative constant meaning \"the rest of the parent\"")
 	c.Expect("C20-R16", 1)
 	checkLayoutExtentsNeverNegative(c, p, "C20-R16")
+	c.Rule("C20-R17", "the view is clipped to its parent in each dimension: in ViewPort's methods a horizontal quantity (x, width, the parent's first Size() result and the fields they are stored in) is compared with horizontal ones only, a vertical one with vertical ones")
+	c.Expect("C20-R17", 1)
+	checkAxisPairing(c, p, "C20-R17", "ViewPort:comparisons-within-one-axis", "views.ViewPort", map[string][2][]int{
+		"Resize":         {{0, 2}, {1, 3}},
+		"SetContent":     {{0}, {1}},
+		"SetContentSize": {{0}, {1}},
+		"SetSize":        {{0}, {1}},
+		"MakeVisible":    {{0}, {1}},
+		"Center":         {{0}, {1}},
+	}, 8)
 	bl := methods(blOwner)
 	if len(vp) < 15 || len(bl) < 10 {
 		c.Undecided("C20-R1", "methods", "-", fmt.Sprintf("found %d ViewPort and %d BoxLayout methods", len(vp), len(bl)))
